@@ -23,15 +23,18 @@ def check(ctx):
     ctx.rule('C11.O2', 'CounterGuard is entered before the take and held over dispatch and put-back')
     ctx.rule('C11.O3', 'CounterGuard is balanced; queueEmptyCounter has no other writer')
     ctx.rule('C11.O4', 'wait predicate false with notification enabled implies emptyQueue()')
+    ctx.rule('C11.O5', 'both guard counters start at zero in every queue constructor')
     for tu in ctx.tus:
         info = TUInfo(tu)
         for q in QUEUES:
             check_queue(ctx, tu, info, q)
         check_guard(ctx, tu)
+        check_counter_zero(ctx, tu, 'C11.O5')
     ctx.require_min('C11.O1', 2)
     ctx.require_min('C11.O2', 7)   # process, processOne, processIf, processUntil + heter process, processOne, doProcessIf
     ctx.require_min('C11.O3', 2)
     ctx.require_min('C11.O4', 2)
+    ctx.require_min('C11.O5', 6)
 
 
 def check_queue(ctx, tu, info, q):
